@@ -111,3 +111,63 @@ End WithCoding.
 (* well-typed parameter: the value is a Python bool exactly when the declared type is bool *)
 Definition well_typed (p : param) : Prop := pvalue_is_bool (p_value p) = ptype_is_bool (p_type p).
 Definition admissible (p : param) : Prop := well_typed p /\ p_check p (p_value p) = true.
+
+(* ------------------------------------------------------------------ histories on ONE object *)
+(* A Parameters object: the dictionary and the TOML document it holds (None until a file was
+   read or dumped).  The generated Gen/Params.v provides [dump_file_document]: what dump_file
+   stores in self.document (and writes) given the current self.document and the freshly
+   generated document. *)
+Record pobj := mkObj { o_dict : pdict; o_doc : option tdoc }.
+
+Inductive pop :=
+| OpSet (k : key) (v : pvalue)          (* set_value(name, value, section) / BIOGEME property setter *)
+| OpDump                                (* dump_file(f) *)
+| OpRead (file : option tdoc).          (* read_file(f): Some = content parsed by tomlkit, None = no such file *)
+
+Section WithObject.
+  Variable encode_value : pvalue -> tvalue.
+  Variable decode_value : ptype -> pvalue -> option tvalue -> option pvalue.
+  Variable dump_document : option tdoc -> tdoc -> option tdoc.
+
+  (* set_value: the tuple found under the key, with the new value, goes through add_parameter *)
+  Definition obj_set (o : pobj) (k : key) (v : pvalue) : option pobj :=
+    match dict_get (o_dict o) k with
+    | None => None
+    | Some p => match add_parameter (o_dict o) (mkParam (p_name p) (p_section p) (p_type p) v (p_check p)) with
+                | Some d => Some (mkObj d (o_doc o))
+                | None => None
+                end
+    end.
+
+  (* dump_file: returns the new object and the document written to the file *)
+  Definition obj_dump (o : pobj) : option (pobj * tdoc) :=
+    match dump_document (o_doc o) (generate_document encode_value (o_dict o)) with
+    | Some doc => Some (mkObj (o_dict o) (Some doc), doc)
+    | None => None
+    end.
+
+  (* one operation; the output lists what was written: (document in the file, dictionary of the
+     object at that moment) *)
+  Definition obj_step (o : pobj) (op : pop) : option (pobj * list (tdoc * pdict)) :=
+    match op with
+    | OpSet k v => option_map (fun o' => (o', [])) (obj_set o k v)
+    | OpDump => option_map (fun r => (fst r, [(snd r, o_dict o)])) (obj_dump o)
+    | OpRead (Some doc) =>
+        option_map (fun d => (mkObj d (Some doc), [])) (import_document decode_value doc (o_dict o))
+    | OpRead None => option_map (fun r => (fst r, [(snd r, o_dict o)])) (obj_dump o)   (* the default file is created *)
+    end.
+
+  Fixpoint obj_run (ops : list pop) (o : pobj) : option (pobj * list (tdoc * pdict)) :=
+    match ops with
+    | [] => Some (o, [])
+    | op :: rest =>
+        match obj_step o op with
+        | None => None
+        | Some (o1, out1) =>
+            match obj_run rest o1 with
+            | None => None
+            | Some (o2, out2) => Some (o2, out1 ++ out2)
+            end
+        end
+    end.
+End WithObject.
